@@ -546,3 +546,53 @@ func helperRunsToCompletion(g *ssa.Function, depth int) bool {
 	}
 	return true
 }
+
+// checkAppendBases: a slice that is made and then extended with append starts empty
+// (`make([]T, 0, n)`): a non-zero length would put zero values (a nil object, an empty event)
+// in front of what is appended, and they would be returned, published or matched against.
+func checkAppendBases(c *Ctx, rels []string) {
+	rule := "T-SHAPE(append-base)"
+	n := 0
+	for _, rel := range rels {
+		for _, f := range c.P.SrcFuncs(rel) {
+			for _, b := range f.Blocks {
+				for _, in := range b.Instrs {
+					mk, ok := in.(*ssa.MakeSlice)
+					if !ok {
+						continue
+					}
+					// does it (through phis) reach the first argument of an append?
+					seen := map[ssa.Value]bool{}
+					isBase := false
+					var visit func(v ssa.Value, d int)
+					visit = func(v ssa.Value, d int) {
+						if seen[v] || d > 4 || v.Referrers() == nil {
+							return
+						}
+						seen[v] = true
+						for _, r := range *v.Referrers() {
+							switch x := r.(type) {
+							case *ssa.Phi:
+								visit(x, d+1)
+							case *ssa.Call:
+								if bi, okb := x.Call.Value.(*ssa.Builtin); okb && bi.Name() == "append" && len(x.Call.Args) > 0 && x.Call.Args[0] == v {
+									isBase = true
+								}
+							}
+						}
+					}
+					visit(mk, 0)
+					if !isBase {
+						continue
+					}
+					n++
+					c.sites++
+					k, isConst := constIntValue(mk.Len)
+					c.check(isConst && k == 0, rule, fnName(f)+"/"+c.P.instrPos(in), c.P.instrPos(in), "append base made with length 0",
+						fnName(f)+" appends to a slice made with a non-zero length: the leading zero values become part of the result")
+				}
+			}
+		}
+	}
+	c.notes = append(c.notes, fmt.Sprintf("append bases: %d make([]T, 0, n) sites in %v", n, rels))
+}
